@@ -61,38 +61,28 @@ func buildGroovyMap(pathExprCtx *parser.PathExpressionContext) []core_domain.Cod
 	return nil
 }
 
+// childAt is GetChild on a tree that may be nil
+func childAt(tree antlr.Tree, index int) antlr.Tree {
+	if tree == nil {
+		return nil
+	}
+	return tree.GetChild(index)
+}
+
 func buildBlockStatements(closureContext *parser.ClosureContext) []core_domain.CodeDependency {
 	var results []core_domain.CodeDependency
-	statementsContext, ok := closureContext.BlockStatementsOpt().(*parser.BlockStatementsOptContext).BlockStatements().(*parser.BlockStatementsContext)
+	optContext, ok := closureContext.BlockStatementsOpt().(*parser.BlockStatementsOptContext)
+	if !ok {
+		return results
+	}
+	statementsContext, ok := optContext.BlockStatements().(*parser.BlockStatementsContext)
 	if !ok {
 		// dependencies { }
 		return results
 	}
 	for _, blockStatement := range statementsContext.AllBlockStatement() {
-		var result *core_domain.CodeDependency = nil
-
-		commandExprCtx := blockStatement.GetChild(0).GetChild(0).GetChild(0).(*parser.CommandExpressionContext)
-		pathExpression := commandExprCtx.GetChild(0).(*parser.PostfixExprAltForExprContext).GetChild(0).(*parser.PostfixExpressionContext).PathExpression()
-		scope := pathExpression.GetChild(0).(antlr.ParseTree).GetText()
-
-		//  with quote testImplementation('org.springframework.boot:spring-boot-starter-test')
-		isWithQuote := pathExpression.GetChildCount() >= 2
-		if isWithQuote {
-			argumentsContext := pathExpression.GetChild(1).(*parser.PathElementContext).GetChild(0).(*parser.ArgumentsContext)
-			argListCtx := argumentsContext.GetChild(1).(*parser.EnhancedArgumentListContext)
-			for _, argElement := range argListCtx.AllEnhancedArgumentListElement() {
-				result = ConvertToJDep(argElement.GetText())
-			}
-		}
-
-		// normal: developmentOnly 'org.springframework.boot:spring-boot-devtools'
-		if commandExprCtx.GetChildCount() >= 2 {
-			argumentListContext := commandExprCtx.GetChild(1).(*parser.ArgumentListContext)
-			result = BuildDependency(argumentListContext)
-		}
-
+		result := buildStatementDependency(blockStatement)
 		if result != nil {
-			result.Scope = scope
 			results = append(results, *result)
 		}
 	}
@@ -100,20 +90,73 @@ func buildBlockStatements(closureContext *parser.ClosureContext) []core_domain.C
 	return results
 }
 
+// buildStatementDependency reads one `configuration 'group:artifact:version'` / `configuration('group:artifact')`
+// statement; any other statement (project(...), fileTree(...), declarations, ...) yields nil
+func buildStatementDependency(blockStatement antlr.Tree) *core_domain.CodeDependency {
+	var result *core_domain.CodeDependency = nil
+
+	commandExprCtx, ok := childAt(childAt(childAt(blockStatement, 0), 0), 0).(*parser.CommandExpressionContext)
+	if !ok {
+		return nil
+	}
+	postfixAlt, ok := commandExprCtx.GetChild(0).(*parser.PostfixExprAltForExprContext)
+	if !ok {
+		return nil
+	}
+	postfixExpr, ok := postfixAlt.GetChild(0).(*parser.PostfixExpressionContext)
+	if !ok || postfixExpr.PathExpression() == nil {
+		return nil
+	}
+	pathExpression := postfixExpr.PathExpression()
+	scopeCtx, ok := pathExpression.GetChild(0).(antlr.ParseTree)
+	if !ok {
+		return nil
+	}
+	scope := scopeCtx.GetText()
+
+	//  with quote testImplementation('org.springframework.boot:spring-boot-starter-test')
+	isWithQuote := pathExpression.GetChildCount() >= 2
+	if isWithQuote {
+		if argumentsContext, ok := childAt(pathExpression.GetChild(1), 0).(*parser.ArgumentsContext); ok {
+			if argListCtx, ok := argumentsContext.GetChild(1).(*parser.EnhancedArgumentListContext); ok {
+				for _, argElement := range argListCtx.AllEnhancedArgumentListElement() {
+					result = ConvertToJDep(argElement.GetText())
+				}
+			}
+		}
+	}
+
+	// normal: developmentOnly 'org.springframework.boot:spring-boot-devtools'
+	if commandExprCtx.GetChildCount() >= 2 {
+		if argumentListContext, ok := commandExprCtx.GetChild(1).(*parser.ArgumentListContext); ok {
+			result = BuildDependency(argumentListContext)
+		}
+	}
+
+	if result != nil {
+		result.Scope = scope
+	}
+	return result
+}
+
 func BuildDependency(argumentListContext *parser.ArgumentListContext) *core_domain.CodeDependency {
 	var result *core_domain.CodeDependency = nil
 	for _, arg := range argumentListContext.AllArgumentListElement() {
-		if reflect.TypeOf(arg.(*parser.ArgumentListElementContext).GetChild(0)).String() == "*parser.ExpressionListElementContext" {
-			listElementContext := arg.(*parser.ArgumentListElementContext).GetChild(0).(*parser.ExpressionListElementContext)
-			literalPrmrAltContext := listElementContext.
-				GetChild(0).
-				GetChild(0).
-				GetChild(0).
-				GetChild(0).(*parser.LiteralPrmrAltContext)
-
-			resultStr := literalPrmrAltContext.Literal().GetChild(0).(*parser.StringLiteralContext).StringLiteral().GetText()
-			result = ConvertToJDep(resultStr)
+		listElementContext, ok := arg.GetChild(0).(*parser.ExpressionListElementContext)
+		if !ok {
+			continue
 		}
+		literalPrmrAltContext, ok := childAt(childAt(childAt(childAt(listElementContext, 0), 0), 0), 0).(*parser.LiteralPrmrAltContext)
+		if !ok {
+			// project(':core'), fileTree(dir: 'libs'), a variable, ...
+			continue
+		}
+		stringLiteralContext, ok := childAt(literalPrmrAltContext.Literal(), 0).(*parser.StringLiteralContext)
+		if !ok || stringLiteralContext.StringLiteral() == nil {
+			continue
+		}
+
+		result = ConvertToJDep(stringLiteralContext.StringLiteral().GetText())
 	}
 	return result
 }
